@@ -33,6 +33,7 @@ class Style:
     trailing_newline: bool = True
     spicy_comments: bool = False  # comment TEXT that is special in some target language (documentation must stay documentation)
     trailing_comments: bool = False  # `// ...` after a statement on the same line
+    proto_late: bool = False  # the `proto` statement is the LAST statement of the file instead of the first
     crlf: bool = False  # lines end in CR LF (a file written on Windows)
     join_statements: bool = False  # `a = 1; b = 2` on one line after a semicolon (needs semicolons all/mixed)
 
@@ -153,26 +154,36 @@ def render_file(f: File, style: Optional[Style] = None) -> Tuple[str, List[SrcEn
         if style.comments and em.pick(2):
             em.write("// leading comment")
         em.nl()
-    if style.comments:
-        em.write(f"// proto {f.proto}")
+    def proto_statement() -> None:
+        if style.comments:
+            em.write(f"// proto {f.proto}")
+            em.nl()
+        em.write("proto ")
+        em.mark("proto", f, f.proto)
+        em.write(em.semi())
         em.nl()
-    em.write("proto ")
-    em.mark("proto", f, f.proto)
-    em.write(em.semi())
-    em.nl()
+
+    if not style.proto_late:
+        proto_statement()
     first = True
     for name, value in f.options:
         if first:
-            em.nl()
+            if not style.proto_late:
+                em.nl()
             first = False
         em.write("option ")
         em.mark("option", f, name, value)
         em.write(" = " + fmt_value(value) + em.semi())
         em.nl()
-    for it in f.items:
-        for _ in range(style.blank_lines):
+    for k, it in enumerate(f.items):
+        for _ in range(style.blank_lines if (k or not style.proto_late or f.options) else 0):
             em.nl()
         _render_item(em, it, 0)
+    if style.proto_late:
+        # the `proto` statement may stand anywhere at file level; written last, the file BEGINS with a definition
+        for _ in range(style.blank_lines if (f.items or f.options) else 0):
+            em.nl()
+        proto_statement()
     return em.text(), em.map
 
 
